@@ -181,3 +181,7 @@ def run(tier: str) -> int:
         key = {'fam': c['fam'], 'clause': mm[1], 'nbits': c.get('nbits'), 'nk': c.get('nk'), 'inf': c.get('inf')}
         rep.mismatch(key, {'ctx': c, 'clause': mm[1], 'op': r['op']})
     return rep.finish()
+
+
+def replay(path: str) -> int:
+    return core.replay_saved('C16', 'EncodingTrace', path, rerun=globals().get('_rerun'))
